@@ -215,6 +215,12 @@ func (p *bitmapPool) freeInts(s []int) {
 	verifPool('f', nil, len(s)*8, p)
 }
 
+// freePointers returns a []*bitmap.Bitmap slice's bytes to the live counter.
+func (p *bitmapPool) freePointers(s []*bitmap.Bitmap) {
+	p.release(len(s) * 8)
+	verifPool('f', nil, len(s)*8, p)
+}
+
 // allocInts charges the budget and allocates a []int slice.  Each entry
 // counts as 8 bytes (size of int on 64-bit).
 func (p *bitmapPool) allocInts(n int) ([]int, error) {
@@ -819,17 +825,34 @@ func (d *decoder) processTextRegion(hdr *segmentHeader, data []byte) error {
 			}
 		}
 	}
-	var symbols []*bitmap.Bitmap
-	for _, refNum := range hdr.RefSegments {
+	// The list may name the same dictionary many times, so the combined
+	// symbol list is not bounded by the input size: count first, then
+	// charge the pointers against the budget before collecting them.
+	skip := make([]bool, len(hdr.RefSegments))
+	numSymbols := 0
+	for i, refNum := range hdr.RefSegments {
 		ref, ok := d.segments[refNum]
 		if !ok || ref.symbols == nil {
+			skip[i] = true
 			continue
 		}
 		// skip this SD if a later referenced SD already refers to it
 		if ref.header != nil && ref.header.Type == segSymbolDict && subsumed[refNum] {
+			skip[i] = true
 			continue
 		}
-		symbols = append(symbols, ref.symbols...)
+		numSymbols += len(ref.symbols)
+	}
+	symbols, err := d.pool.allocPointers(numSymbols)
+	if err != nil {
+		return err
+	}
+	defer d.pool.freePointers(symbols)
+	symbols = symbols[:0]
+	for i, refNum := range hdr.RefSegments {
+		if !skip[i] {
+			symbols = append(symbols, d.segments[refNum].symbols...)
+		}
 	}
 
 	var bm *bitmap.Bitmap
